@@ -223,7 +223,14 @@ impl InferShapes for Where {
                 })
                 .collect();
             if let Some(vals) = vals {
-                return Ok([SymTensor::from_vec(vals)].into());
+                // The result is a scalar if all the inputs are scalars.
+                let all_scalars = [cond, x, y].iter().all(|t| t.as_scalar().is_some());
+                let result = if all_scalars {
+                    SymTensor::from_scalar(vals[0].clone())
+                } else {
+                    SymTensor::from_vec(vals)
+                };
+                return Ok([result].into());
             }
         }
 
